@@ -144,8 +144,10 @@ def read_cgsmiles(pattern):
             branch_anchor.append(prev_node)
             # the recipe for making the branch includes the anchor;
             # which is hence the first residue in the list
-            # at this point the bond order is still 1 unless we have an expansion
-            recipes[branch_anchor[-1]] = [(1, attributes, 1)]
+            # at this point the bond order is still 1 unless we have an expansion;
+            # the anchor is not necessarily the node read last (a second branch
+            # on the same anchor), so we take its attributes from the graph
+            recipes[branch_anchor[-1]] = [(1, dict(mol_graph.nodes[prev_node]), 1)]
 
         # here we check if the atom is followed by a cycle marker
         # in this case we have an open cycle and close it
